@@ -1006,10 +1006,106 @@ pub fn foreign_subject_keys(ctx: &Ctx, w: &Workload<'_>) {
 	}
 }
 
+/// Directed (C05): names edited before use, holding an attribute type under two spellings (the named variant and a custom
+/// type with the same OID). Whatever such a history leaves in the name, the certificate must agree with itself: the
+/// subjectAltName is critical exactly when the ENCODED subject is empty, and a name that still holds a value is not
+/// written empty.
+pub fn name_alias_directed(ctx: &Ctx, w: &Workload<'_>) {
+	use rcgen::{DnType, SanType};
+	let key = match w.pool.iter().find(|k| !k.is_remote()) {
+		Some(k) => k,
+		None => return,
+	};
+	for i in 0..(6 * 6 * 2) as u64 {
+		let id = CaseId::new("name-alias", ctx.seed, i);
+		if let Some(r) = &ctx.replay {
+			if r.index != i {
+				continue;
+			}
+		}
+		let ty = STD_TYPES[(i % 6) as usize].clone();
+		let (named, custom) = (ty.to_rcgen(), DnType::CustomDnType(ty.oid()));
+		let text_value = if ty == DnTy::Country { "DE" } else { "value" };
+		let history = i / 6 % 6;
+		let with_san = i / 36 == 0;
+		let mut p = CertificateParams::default();
+		let dn = &mut p.distinguished_name;
+		*dn = rcgen::DistinguishedName::new();
+		// what a correct insertion-ordered map holds afterwards: (is the custom spelling, value)
+		let mut model: Vec<(bool, &str)> = Vec::new();
+		match history {
+			0 => {
+				dn.push(named.clone(), text_value);
+				dn.push(custom.clone(), "other");
+				dn.remove(named.clone());
+				model.push((true, "other"));
+			},
+			1 => {
+				dn.push(named.clone(), text_value);
+				dn.push(custom.clone(), "other");
+				dn.remove(custom.clone());
+				model.push((false, text_value));
+			},
+			2 => {
+				dn.push(custom.clone(), "other");
+				dn.push(named.clone(), text_value);
+				dn.remove(custom.clone());
+				model.push((false, text_value));
+			},
+			3 => {
+				dn.push(custom.clone(), "other");
+				dn.push(named.clone(), text_value);
+				dn.remove(named.clone());
+				model.push((true, "other"));
+			},
+			4 => {
+				dn.push(named.clone(), text_value);
+				dn.remove(custom.clone());
+				model.push((false, text_value));
+			},
+			_ => {
+				dn.push(named.clone(), text_value);
+				dn.push(custom.clone(), "other");
+				dn.remove(named.clone());
+				dn.remove(custom.clone());
+			},
+		}
+		if with_san {
+			p.subject_alt_names = vec![SanType::DnsName("alias.example.com".try_into().unwrap())];
+		}
+		let text = format!("attribute type {:?} as named variant and as custom OID, history {}, with SAN: {}", ty, history, with_san);
+		ctx.count("eval:name-alias");
+		match crate::guard(|| p.self_signed(&key.kp).map_err(|e| e.to_string())) {
+			Err(pn) => ctx.violation("c05:cert-panic", &id, &text, &pn),
+			Ok(Err(_)) => ctx.count("name-alias:refused"),
+			Ok(Ok(cert)) => match x509::parse_certificate(cert.der()) {
+				Err(e) => ctx.violation("c05:undecodable", &id, &text, &e),
+				Ok(v) => {
+					ctx.count("name-alias:issued");
+					let encoded_empty = v.subject.rdns.is_empty();
+					if let Some(san) = find(v.exts.as_deref().unwrap_or(&[]), x509::OID_SAN).first() {
+						if san.critical != encoded_empty {
+							ctx.violation("c05:san-criticality", &id, &text, &format!("subjectAltName critical={} but the encoded subject is empty={}", san.critical, encoded_empty));
+						}
+					} else if encoded_empty && with_san {
+						ctx.violation("c05:san-missing", &id, &text, "empty subject and no subjectAltName");
+					}
+					if v.subject.flat().len() != model.len() {
+						ctx.violation("c05:subject-attributes", &id, &text, &format!("the name holds {} value(s), the encoded subject {}", model.len(), v.subject.flat().len()));
+					}
+				},
+			},
+		}
+	}
+}
+
 pub const WORKLOADS: [&str; 8] = ["lattice", "ku", "prefix", "pathlen", "kid", "keys", "huge", "random"];
 
 /// Run the certificate workload for one property.
 pub fn run(ctx: &Ctx, prop: Prop, w: &Workload<'_>, n_random: u64) {
+	if prop == Prop::C05 && ctx.replay.as_ref().map_or(true, |r| r.workload == "name-alias") {
+		name_alias_directed(ctx, w);
+	}
 	if prop == Prop::C02 && ctx.replay.as_ref().map_or(true, |r| r.workload == "foreign-spki") {
 		foreign_subject_keys(ctx, w);
 	}
